@@ -105,16 +105,39 @@ func corrCreds(seed uint64, n int, tier string, out string, replay string) {
 
 	for i := 0; i < n; i++ {
 		r := NewRng(seed, uint64(i))
-		repoHost := Pick(r, credHosts[:3])
-		chartHost := Pick(r, credHosts)
-		if r.Chance(35) {
-			chartHost = repoHost
+		repoHost := Pick(r, []string{"repo.test", "repo.test:8080", "REPO.test", "charts.example.test:8443", "a.b.test", "repo.test:80"})
+		chartHost := repoHost
+		bare := repoHost
+		if k := strings.LastIndex(bare, ":"); k >= 0 {
+			bare = bare[:k]
+		}
+		switch r.Intn(14) {
+		case 0, 1, 2:
+			// same origin
+		case 3:
+			chartHost = bare + ":" + Pick(r, []string{"8081", "9090", "443"}) // another port of the same host
+		case 4:
+			chartHost = bare // the port dropped
+		case 5:
+			chartHost = bare + ":80" // the default port spelled out
+		case 6:
+			chartHost = strings.ToUpper(repoHost)
+		case 7:
+			chartHost = strings.ToLower(repoHost)
+		case 8:
+			chartHost = bare + ".evil.test" // the repository host as a prefix
+		case 9:
+			chartHost = "x." + repoHost // ... as a suffix
+		case 10:
+			chartHost = Pick(r, []string{"user@", "user:pw@"}) + repoHost
+		default:
+			chartHost = Pick(r, credHosts)
 		}
 		passAll := r.Chance(25)
 		repoURL := "http://" + repoHost + Pick(r, []string{"", "/charts", "/a/b"})
-		chartURL := "http://" + chartHost + "/dl/foo-1.0.0.tgz"
+		chartURL := "http://" + chartHost + Pick(r, []string{"/dl/foo-1.0.0.tgz", "/foo-1.0.0.tgz", "/charts/foo-1.0.0.tgz"})
 		relative := r.Chance(25)
-		cs := map[string]any{"repoURL": repoURL, "chartURL": chartURL, "passAll": passAll, "relative": relative}
+		cs := map[string]any{"repoURL": repoURL, "chartURL": chartURL, "passAll": passAll, "relative": relative, "entry": i % 5}
 		ro, co := originOf(repoURL), originOf(chartURL)
 		cross := ro["scheme"] != co["scheme"] || ro["host"] != co["host"]
 		rep.Count(cs, cross && !relative)
